@@ -64,6 +64,7 @@ type vc10Rec struct {
 type vc10Kv struct {
 	key string
 	val []byte // nil = deleted
+	old []byte // value before the round (nil = did not exist), as roundCowState.deltas() fills OldData
 }
 
 type vc10Round struct {
@@ -283,9 +284,10 @@ func (w *vc10World) genKvOp(r *vRand, rd *vc10Round, touched map[string]bool) bo
 		if val == nil {
 			val = []byte{}
 		}
+		old := w.kv[key]
 		w.kv[key] = val
 		touched[key] = true
-		rd.kv = append(rd.kv, vc10Kv{key, val})
+		rd.kv = append(rd.kv, vc10Kv{key, val, old})
 		w.st["op_boxset"]++
 		return true
 	}
@@ -298,9 +300,10 @@ func (w *vc10World) genKvOp(r *vRand, rd *vc10Round, touched map[string]bool) bo
 	if touched[key] {
 		return false
 	}
+	old := w.kv[key]
 	delete(w.kv, key)
 	touched[key] = true
-	rd.kv = append(rd.kv, vc10Kv{key, nil})
+	rd.kv = append(rd.kv, vc10Kv{key, nil, old})
 	w.st["op_boxdel"]++
 	return true
 }
@@ -384,7 +387,7 @@ func (w *vc10World) addRound(rd vc10Round) {
 		delta.AddCreatable(basics.CreatableIndex(id), ledgercore.ModifiedCreatable{Ctype: ctypeOf(id), Created: false, Creator: w.addrs[a-1]})
 	}
 	for _, kv := range rd.kv {
-		delta.KvMods[kv.key] = ledgercore.KvValueDelta{Data: kv.val}
+		delta.KvMods[kv.key] = ledgercore.KvValueDelta{Data: kv.val, OldData: kv.old}
 	}
 	require.NoError(t, l.AddValidatedBlock(ledgercore.MakeValidatedBlock(blk, delta), agreement.Certificate{}))
 	w.rounds = append(w.rounds, rd)
@@ -709,7 +712,7 @@ func TestVerifC10(t *testing.T) {
 			rd.res[0] = append(rd.res[0], w.rec(0, k2, false, false))
 			key := vc10BoxKey(255, string([]byte{'a' + byte(i)}))
 			w.kv[key] = []byte{byte(i)}
-			rd.kv = append(rd.kv, vc10Kv{key, []byte{byte(i)}})
+			rd.kv = append(rd.kv, vc10Kv{key, []byte{byte(i)}, nil})
 		}
 		w.addRound(rd)
 		w.flushTo(1)
@@ -719,8 +722,9 @@ func TestVerifC10(t *testing.T) {
 			delete(w.hold[0], k2)
 			rd.res[0] = append(rd.res[0], w.rec(0, k2, false, true))
 			key := vc10BoxKey(255, string([]byte{'a' + byte(i)}))
+			old := w.kv[key]
 			delete(w.kv, key)
-			rd.kv = append(rd.kv, vc10Kv{key, nil})
+			rd.kv = append(rd.kv, vc10Kv{key, nil, old})
 		}
 		w.addRound(rd)
 		w.nextID = 1010
